@@ -8,7 +8,7 @@ from ..cfg import NORMAL, Node
 from ..core import Ctx
 from ..flow import ALL, find_path, names_in
 from ..model import AnalysisError, FunctionInfo, dotted, norm_text
-from .common import null_edges, owner_tops, str_consts, walk_all, edge_target, kwarg, reachable_from
+from .common import EnumVal, FnRef, explore, null_edges, owner_tops, resolve_value, str_consts, walk_all, edge_target, kwarg, reachable_from
 
 EXPLANATION = (
     "Static analysis of filters.py and the scan APIs: (R1) the operator tables agree and are exhaustive (enum members = handler "
@@ -101,13 +101,82 @@ def parse_table(ctx: Ctx) -> Tuple[FunctionInfo, ast.Dict]:
     raise AnalysisError("operator mapping vanished from _parse_op")
 
 
+_OPERATOR_FUNCS = {"eq": ast.Eq, "ne": ast.NotEq, "lt": ast.Lt, "le": ast.LtE, "gt": ast.Gt, "ge": ast.GtE}
+
+
+def op_returns(ctx: Ctx) -> Dict[str, Dict[str, object]]:
+    """What _build_condition does for each operator, by scenario: {op: {'exprs': [(expr AST, handler fn or None)],
+    'raises': [class names], 'undecided': bool}}.  The CFG is walked path-sensitively with `<expr>.op` bound to the member
+    (so a dict of lambdas looked up with .get, an if/elif chain on the operator, and a table of `operator.x` functions plus a
+    chain are all read the same way); 'exprs' are the returned condition expressions, looked through handler functions."""
+    f = ctx.fn("filters._build_condition")
+    g = ctx.cfg(f)
+    exprn = f.params[0].name if f.params else "expr"
+    ci = ctx.prog.cls("filters.FilterOp")
+    ends = [n.id for n in g.nodes if n.kind in ("return", "raise") and n.id in g.reachable()]
+    out: Dict[str, Dict[str, object]] = {}
+    scen: List[Tuple[str, object]] = [(m, EnumVal("FilterOp", m, ci.consts[m].value if isinstance(ci.consts[m], ast.Constant) else m))
+                                      for m in enum_members(ctx)]
+    scen.append(("<other>", EnumVal("FilterOp", "<other>", "<other>")))
+    for op, val in scen:
+        res = explore(ctx, f, [g.entry], env={exprn + ".op": val}, stop=ends)
+        exprs: List[Tuple[ast.AST, object]] = []
+        raises: List[str] = []
+        undecided = False
+        for end, store, asm in res:
+            n = g.nodes[end]
+            if n.kind == "raise":
+                raises.append(n.raised or "?")
+                continue
+            if n.kind != "return" or n.ast.value is None:  # type: ignore[union-attr]
+                continue
+            for e_, at_ in resolve_value(ctx, f, n.ast.value, n.id):  # type: ignore[union-attr]
+                if e_ is None:
+                    continue
+                # a call of a function value taken from a table / a local handler variable
+                if isinstance(e_, ast.Call) and isinstance(e_.func, ast.Name):
+                    fv = store.get(e_.func.id)
+                    if fv is None and e_.func.id in f.nested:
+                        fv = FnRef(e_.func)
+                    if isinstance(fv, FnRef):
+                        tgt = fv.node
+                        if isinstance(tgt, ast.Lambda):
+                            exprs.append((tgt.body, None))
+                            continue
+                        if isinstance(tgt, ast.Name) and tgt.id in f.nested:
+                            nf = f.nested[tgt.id]
+                            for r_ in [x.value for x in ast.walk(nf.node) if isinstance(x, ast.Return) and x.value is not None]:
+                                exprs.append((r_, nf))
+                            continue
+                        if isinstance(tgt, ast.Attribute) and dotted(tgt.value) == "operator" and tgt.attr in _OPERATOR_FUNCS and len(e_.args) == 2:
+                            cmp_ = ast.Compare(left=e_.args[0], ops=[_OPERATOR_FUNCS[tgt.attr]()], comparators=[e_.args[1]])
+                            ast.copy_location(cmp_, e_)
+                            ast.fix_missing_locations(cmp_)
+                            exprs.append((cmp_, None))
+                            continue
+                        undecided = True
+                        continue
+                exprs.append((e_, None))
+        # de-duplicate by text
+        seen_txt: Set[str] = set()
+        uniq = []
+        for e_, h_ in exprs:
+            t_ = norm_text(e_)
+            if t_ not in seen_txt:
+                seen_txt.add(t_)
+                uniq.append((e_, h_))
+        out[op] = {"exprs": uniq, "raises": raises, "undecided": undecided}
+    return out
+
+
 def r1(ctx: Ctx) -> None:
     ctx.rule("C12.R1", "operator tables agree and are exhaustive", 4)
     members = set(enum_members(ctx))
-    f, d = handler_table(ctx)
-    keys = {k.attr for k in d.keys if isinstance(k, ast.Attribute)}
+    f = ctx.fn("filters._build_condition")
+    opr = op_returns(ctx)
+    keys = {m for m in members if opr[m]["exprs"]}
     ctx.ob("C12.R1", f, "handler keys == FilterOp members", None, keys == members,
-           f"missing handlers: {sorted(members - keys)}; unknown keys: {sorted(keys - members)}", text="op_handlers")
+           f"operators for which _build_condition returns no condition: {sorted(members - keys)}", text="op_handlers")
     po, mp = parse_table(ctx)
     mapped = {v.attr for v in mp.values if isinstance(v, ast.Attribute)}
     pf = ctx.fn("filters.parse_filter_dict")
@@ -161,15 +230,11 @@ def r2(ctx: Ctx) -> None:
             ok = True
     ctx.ob("C12.R2", po, "unknown operator -> ValueError", brs[0] if brs else None, ok or bool(subs), "None -> raise (or a KeyError subscript)")
     bc = ctx.fn("filters._build_condition")
-    bg = ctx.cfg(bc)
-    hname = table_name(ctx, bc, handler_table(ctx)[1])
-    gets = [n for n in bg.calls() if isinstance(n.ast, ast.Call) and isinstance(n.ast.func, ast.Attribute) and n.ast.func.attr == "get"
-            and (dotted(n.ast.func.value) or "").split(".")[-1] == hname]
-    for x in gets:
-        ctx.ob("C12.R2", bc, "op_handlers.get has no default", x, len(x.ast.args) == 1 and not x.ast.keywords, "")  # type: ignore[union-attr]
-    brs = [b for b in bg.nodes if b.kind == "branch" and "is None" in b.text]
-    ok = any(edge_target(bg, b, "true") is not None and any(bg.nodes[x].kind == "raise" for x in reachable_from(bg, edge_target(bg, b, "true"), NORMAL)) for b in brs)  # type: ignore[arg-type]
-    ctx.ob("C12.R2", bc, "unsupported operator -> ValueError", brs[0] if brs else None, ok or not gets, "")
+    other = op_returns(ctx)["<other>"]
+    ctx.ob("C12.R2", bc, "unsupported operator -> ValueError", None,
+           not other["exprs"] and bool(other["raises"]) and all(r == "ValueError" for r in other["raises"]),  # type: ignore[union-attr]
+           f"scenario: an operator outside the enum's handled members -> returns {len(other['exprs'])} condition(s), raises {other['raises']}",  # type: ignore[arg-type]
+           text="other")
     pf = ctx.fn("filters.parse_filter_dict")
     pg = ctx.cfg(pf)
     loopv = [l.ast.target.elts[1].id for l in pg.nodes if l.kind == "loop" and isinstance(l.ast, ast.For)
@@ -280,16 +345,43 @@ def _cval(e: ast.AST, env: Dict[str, object], fld: str, exprn: str) -> object:
     if isinstance(e, ast.Name):
         if e.id in env:
             return env[e.id]
+        fn_ = env.get("@fn")
+        if fn_ is not None and e.id in fn_.nested:
+            return ("fn", fn_.nested[e.id])
+        if fn_ is not None and isinstance(fn_.module.consts.get(e.id), ast.Dict):
+            return ("dict", fn_.module.consts[e.id])
         raise _NoEval(e.id)
+    if isinstance(e, ast.Lambda):
+        return ("lam", e)
+    if isinstance(e, ast.Dict):
+        return ("dict", e)
     if isinstance(e, ast.Attribute):
         if dotted(e) == f"{exprn}.value":
             return env["@value"]
+        if dotted(e) == f"{exprn}.op" and "@op" in env:
+            return ("op", env["@op"])
+        if isinstance(e.value, ast.Name) and e.value.id == "FilterOp":
+            return ("op", e.attr)
+        if isinstance(e.value, ast.Name) and e.value.id == "operator" and e.attr in _OPERATOR_FUNCS:
+            import operator as _op
+            return ("pyop", getattr(_op, e.attr))
         raise _NoEval(dotted(e) or "attribute")
+    if isinstance(e, ast.Subscript):
+        base = _cval(e.value, env, fld, exprn)
+        if isinstance(base, tuple) and base and base[0] == "dict":
+            key = _cval(e.slice, env, fld, exprn)
+            for k, v in zip(base[1].keys, base[1].values):
+                if k is not None and _cval(k, env, fld, exprn) == key:
+                    return _cval(v, env, fld, exprn)
+            raise _NoEval("missing key")
+        raise _NoEval("subscript")
     if isinstance(e, ast.Compare) and len(e.ops) == 1:
         a, b = _cval(e.left, env, fld, exprn), _cval(e.comparators[0], env, fld, exprn)
         t = type(e.ops[0])
         table = {ast.Eq: lambda: a == b, ast.NotEq: lambda: a != b, ast.Lt: lambda: a < b, ast.LtE: lambda: a <= b,
-                 ast.Gt: lambda: a > b, ast.GtE: lambda: a >= b, ast.Is: lambda: a is b, ast.IsNot: lambda: a is not b,
+                 ast.Gt: lambda: a > b, ast.GtE: lambda: a >= b,
+                 ast.Is: lambda: (a == b) if isinstance(a, tuple) or isinstance(b, tuple) else (a is b),
+                 ast.IsNot: lambda: (a != b) if isinstance(a, tuple) or isinstance(b, tuple) else (a is not b),
                  ast.In: lambda: a in b, ast.NotIn: lambda: a not in b}
         if t not in table:
             raise _NoEval(t.__name__)
@@ -312,6 +404,31 @@ def _cval(e: ast.AST, env: Dict[str, object], fld: str, exprn: str) -> object:
         return out
     if isinstance(e, (ast.List, ast.Tuple)):
         return [_cval(x, env, fld, exprn) for x in e.elts]
+    if isinstance(e, ast.Call) and isinstance(e.func, ast.Attribute) and e.func.attr == "get" and e.args:
+        try:
+            base = _cval(e.func.value, env, fld, exprn)
+        except _NoEval:
+            base = None
+        if isinstance(base, tuple) and base and base[0] == "dict":
+            key = _cval(e.args[0], env, fld, exprn)
+            for k, v in zip(base[1].keys, base[1].values):
+                if k is not None and _cval(k, env, fld, exprn) == key:
+                    return _cval(v, env, fld, exprn)
+            return _cval(e.args[1], env, fld, exprn) if len(e.args) > 1 else None
+    if isinstance(e, ast.Call) and isinstance(e.func, ast.Name) and e.func.id not in ("len", "bool", "list", "set", "tuple", "frozenset"):
+        try:
+            fv = _cval(e.func, env, fld, exprn)
+        except _NoEval:
+            fv = None
+        if isinstance(fv, tuple) and fv and fv[0] == "lam":
+            lam = fv[1]
+            sub = dict(env)
+            sub.update({a.arg: _cval(x, env, fld, exprn) for a, x in zip(lam.args.args, e.args)})
+            return _cval(lam.body, sub, fld, exprn)
+        if isinstance(fv, tuple) and fv and fv[0] == "pyop":
+            return fv[1](*[_cval(x, env, fld, exprn) for x in e.args])
+        if isinstance(fv, tuple) and fv and fv[0] == "fn":
+            return _run_handler(env["@ctx"], env["@fn"], ast.Name(id=fv[1].name, ctx=ast.Load()), env, fld, exprn)
     if isinstance(e, ast.Call):
         fn = dotted(e.func) or ""
         leaf = fn.split(".")[-1]
@@ -376,16 +493,53 @@ def _run_handler(ctx: Ctx, f: FunctionInfo, v: ast.AST, env: Dict[str, object], 
     raise _NoEval("handler " + norm_text(v))
 
 
+def _run_build_condition(ctx: Ctx, f: FunctionInfo, op: str, x: object, lit: object, fld: str, exprn: str) -> object:
+    """Value of _build_condition(expr, field) for one non-NULL row: its CFG is interpreted with `<expr>.op` = op; the result of
+    a helper analysed in place is carried from its return statement to its call."""
+    g = ctx.cfg(f)
+    ret_call = {nid: cid for cid, lst in g.inline_returns.items() for (_e, nid) in lst}
+    env: Dict[str, object] = {fld: x, "@value": lit, "@op": op, "@ctx": ctx, "@fn": f}
+    rets: Dict[int, object] = {}
+
+    def val(e: Optional[ast.AST]) -> object:
+        if e is None:
+            return None
+        if isinstance(e, ast.Call) and id(e) in g.inline_returns:
+            if id(e) not in rets:
+                raise _NoEval("helper result")
+            return rets[id(e)]
+        return _cval(e, env, fld, exprn)
+
+    cur: Optional[int] = g.entry
+    for _ in range(600):
+        if cur is None or cur == g.exit:
+            return None
+        n = g.nodes[cur]
+        if n.kind == "return":
+            return val(n.ast.value)  # type: ignore[union-attr]
+        if n.kind == "raise":
+            raise _NoEval("raise " + (n.raised or ""))
+        if n.kind == "branch" and n.ast is not None:
+            cur = edge_target(g, n, "true" if val(n.ast) else "false")
+            continue
+        if n.kind == "stmt" and isinstance(n.ast, ast.Return) and cur in ret_call:
+            rets[ret_call[cur]] = val(n.ast.value)
+        elif n.kind == "stmt" and isinstance(n.ast, ast.Assign) and len(n.ast.targets) == 1 and isinstance(n.ast.targets[0], ast.Name):
+            env[n.ast.targets[0].id] = val(n.ast.value)
+        nxt = [d for d, l in g.succ[cur] if l in NORMAL]
+        cur = nxt[0] if nxt else None
+    raise _NoEval("no result within 600 steps")
+
+
 def r11(ctx: Ctx) -> None:
     ctx.rule("C12.R11", "each operator's handler has its SQL meaning on non-NULL rows: for every field value and literal of a small "
              "ordered domain the handler's expression (pyarrow operators read row-wise) equals the operator's predicate", 10)
     from .c13 import OPS
-    f, d = handler_table(ctx)
+    f = ctx.fn("filters._build_condition")
     fld = f.params[1].name if len(f.params) > 1 else "field"
     exprn = f.params[0].name if f.params else "expr"
     dom = (0, 1, 2)
-    for k, v in zip(d.keys, d.values):
-        op = k.attr if isinstance(k, ast.Attribute) else norm_text(k)
+    for op in enum_members(ctx):
         if op in ("IN", "NOT_IN"):
             lits: List[object] = [[], [0], [1, 2], [0, None], [None], [2, 2]]
             want = (lambda x, lit: x in [y for y in lit if y is not None]) if op == "IN" else \
@@ -404,13 +558,13 @@ def r11(ctx: Ctx) -> None:
         try:
             for x in dom:
                 for lit in lits:
-                    got = bool(_run_handler(ctx, f, v, {fld: x, "@value": lit}, fld, exprn))
+                    got = bool(_run_build_condition(ctx, f, op, x, lit, fld, exprn))
                     cells += 1
                     if got != bool(want(x, lit)) and bad is None:
-                        bad = f"field={x}, literal={lit!r}: handler gives {got}, {op} means {bool(want(x, lit))}"
+                        bad = f"field={x}, literal={lit!r}: the condition built for {op} gives {got}, {op} means {bool(want(x, lit))}"
         except _NoEval as u:
             ctx.ob("C12.R11", f, f"{op}: handler is in the interpreted expression language", None, False,
-                   f"`{norm_text(v)[:60]}` uses `{u}` which the row-wise interpreter does not model", text=op)
+                   f"the condition built for {op} uses `{u}` which the row-wise interpreter does not model", text=op)
             continue
         ctx.ob("C12.R11", f, f"{op}: handler == predicate on every (value, literal) cell", None, bad is None,
                f"{cells} cells; " + (bad or "all agree"), text=op)
@@ -418,13 +572,13 @@ def r11(ctx: Ctx) -> None:
 
 def r3(ctx: Ctx) -> None:
     ctx.rule("C12.R3", "NULL never matches: Kleene abstract interpretation of each operator handler for a NULL row", 10)
-    f, d = handler_table(ctx)
+    f = ctx.fn("filters._build_condition")
     fld = f.params[1].name if len(f.params) > 1 else "field"
-    for k, v in zip(d.keys, d.values):
-        op = k.attr if isinstance(k, ast.Attribute) else norm_text(k)
-        rets = handler_returns(ctx, f, v)
-        if not rets:
-            ctx.ob("C12.R3", f, f"handler {op} is analysable", None, False, f"handler expression `{norm_text(v)}` not resolved", text=op)
+    opr = op_returns(ctx)
+    for op in enum_members(ctx):
+        rets = [e for e, _h in opr[op]["exprs"]]  # type: ignore[union-attr]
+        if not rets or opr[op]["undecided"]:
+            ctx.ob("C12.R3", f, f"handler {op} is analysable", None, False, f"no condition expression resolved for {op}", text=op)
             continue
         for i, e in enumerate(rets):
             val = kleene(e, True, fld)
